@@ -497,8 +497,8 @@ func c11(args []string) int {
 		},
 		Coverage: map[string]any{
 			"evaluations": events + rules["R2"] + rules["R4"], "distinct_nontrivial": len(kinds),
-			"rule":        "every rename onto a final name (LTX file, restore output, TXID sidecar) and every unlink of an LTX file in the recorded syscall traces of the scenarios is a checked event: R1 source fsynced after its last write before the rename; R2 directory fsynced before the operation reports success; R3 an unlinked LTX file is superseded by a durable file (uploaded copy, higher level covering its range, or snapshot); R4 no write ever targets a final name; distinct = (scenario, rule) pairs exercised",
-			"samples":     samples, "exhaustive": exhaustive, "rename_unlink_events": events, "counted_syscalls": calls, "rule_checks": rules, "scenarios": len(scs),
+			"rule":    "every rename onto a final name (LTX file, restore output, TXID sidecar) and every unlink of an LTX file in the recorded syscall traces of the scenarios is a checked event: R1 source fsynced after its last write before the rename; R2 directory fsynced before the operation reports success; R3 an unlinked LTX file is superseded by a durable file (uploaded copy, higher level covering its range, or snapshot); R4 no write ever targets a final name; distinct = (scenario, rule) pairs exercised",
+			"samples": samples, "exhaustive": exhaustive, "rename_unlink_events": events, "counted_syscalls": calls, "rule_checks": rules, "scenarios": len(scs),
 		}}
 	if err := ev.Write(e); err != nil {
 		fmt.Fprintln(os.Stderr, err)
